@@ -660,3 +660,12 @@ def multitask_objective(case, W_full, eta_buf=None):
     W, B = (W_full[:-1], W_full[-1]) if fi else (W_full, 0.)
     E = X @ W + B if eta_buf is None else np.asarray(eta_buf, float)
     return float(((Y - E) ** 2).sum() / (2 * X.shape[0])) + ref_penalty(case).value(W)
+
+
+def unsorted_groups(case):
+    """root-cause label: the group layout is not the identity ordering (KF-GPN-UNSORTED-GROUPS)"""
+    g = case["penalty"].get("groups")
+    if not g:
+        return False
+    flat = [j for grp in g for j in grp]
+    return flat != list(range(len(flat)))
